@@ -13,6 +13,9 @@ def run(ck, tier, seed):
         for d in ([rtl] if q else [rtl, rtl ^ 1, rtl | 2]):
             jobs.append({"font": os.path.join(corpus.F, font), "file": os.path.join(corpus.T, text), "dir": d, "p2": p2s,
                          "maxlines": 600, "step": 6 if q else 1})
+    # pseudo-random strings over each font's characters: clusters (attached glyphs with shifts) no corpus line has
+    for k, rj in enumerate(corpus.random_jobs(n=80 if q else 1500, seed=seed)):
+        jobs.append({"font": rj["font"], "cps": rj["cps"], "dir": rj["dir"], "p2": p2s[1:4] if q else p2s, "lineno": 100000 + k})
     jf = os.path.join(tmp, "jobs.ndjson")
     rec = os.path.join(tmp, "pairs.ndjson")
     open(jf, "w").write("\n".join(json.dumps(j) for j in jobs) + "\n")
